@@ -188,14 +188,20 @@ LEVEL_TEXT["C12"] = {
     "technique": "Lean 4 proof (soundness, completeness under WFSysV, sysv_hash = elf_hash, step bound) + differential correspondence on gABI-built tables + linear-scan / reference-hash oracle",
 }
 LEVEL_TEXT["C13"] = {
-    "text": "Theorems: a requirement returned for symbol i is built from a Verneed record and an aux record of its chain whose vna_other equals "
-            "versym[i] mod 2^15, with file/name the strings at vn_file/vna_name, hash/flags copied, hidden = bit 15; a definition comes from a "
-            "Verdef with vd_ndx = versym[i] mod 2^15 and hands out that record's aux chain (count vd_cnt); indexes beyond the versym table "
-            "never give a record; missing VERNEED/VERDEF section => None; sh_link/sh_info wiring of symbol_version_table. Which record is "
-            "*first* in any forward layout is established by the correspondence on version models laid out contiguously and interleaved "
-            "with gaps, checked against the builder's ground truth.",
-    "note": COMMON_NOTE + " The chain-predicate theorem (iterator = records of any forward layout) is pending; traversal order is currently validated differentially.",
-    "technique": "Lean 4 proof of query specifications + differential correspondence + version-model ground-truth oracle",
+    "text": "Soundness theorems (any bytes): a requirement returned for symbol i is built from a Verneed record and an aux record of its chain "
+            "whose vna_other equals versym[i] mod 2^15, with file/name the strings at vn_file/vna_name, hash/flags copied, hidden = bit 15; a "
+            "definition comes from a Verdef with vd_ndx = versym[i] mod 2^15 and hands out that record's aux chain (count vd_cnt); indexes "
+            "beyond the versym table never give a record; missing VERNEED/VERDEF section => None; sh_link/sh_info wiring of "
+            "symbol_version_table. Completeness theorems on well-formed chains in ANY forward layout (NeedChain/RecChain/AuxChain: sh_info "
+            "records readable at their offsets, linked by next offsets that are non-zero except possibly on the last, aux chains reached by "
+            "the aux offset; nothing assumed about relative placement): get_requirement_complete (the answer is the first aux record in "
+            "traversal order with vna_other = versym[i] mod 2^15, with its Verneed's file), get_definition_complete (first Verdef with that "
+            "vd_ndx; its names iterator is that record's aux chain), definition_names_complete (names = strings at vda_name in chain order), "
+            "requirement_absent / definition_absent (no matching record => None, local 0 / global 1 included); chains shown inhabited. The "
+            "correspondence runs version models laid out contiguously, interleaved and with gaps against the builder's ground truth, and "
+            "file-level queries against an independent decoder of the three sections (own sh_link string tables).",
+    "note": COMMON_NOTE + " That a given builder's output satisfies the chain predicates is checked per generated table by the oracle, not proved for a builder.",
+    "technique": "Lean 4 proof (soundness on any bytes; completeness on well-formed chains in any forward layout) + differential correspondence + version-model ground truth and independent file-level decoder",
 }
 LEVEL_TEXT["C14"] = {
     "text": "Theorem parse_at_spec: for every buffer, cursor, class, order and non-zero alignment, one step of note iteration equals the ABI "
